@@ -226,8 +226,8 @@ CLAIMED = {
         "optimiser inputs + property oracle on grids, degenerate arrays and recorded curves",
         "DESIGN.md §5 C08"),
     "C17": (
-        "Machine-checked Lean 4 proof over an ordered field, for every approach segment, about a hand model of 14 of "
-        "the 15 rating features and of get_feature_names / compute_features: each modelled feature is unchanged "
+        "Machine-checked Lean 4 proof over an ordered field, for every approach segment, about a hand model of all "
+        "15 rating features and of get_feature_names / compute_features: each modelled feature is unchanged "
         "when force and fit are multiplied by a common positive factor (for every Gaussian filter that is "
         "homogeneous and every positively homogeneous standard deviation - the assumed behaviour of the library "
         "routines), fraction-type features lie in [0, 1], the logarithm arguments of the magnitude-type features are "
@@ -235,7 +235,7 @@ CLAIMED = {
         "sorted for every which_type form and are exactly the requested members of the requested types. Tied by "
         "calling the real feature methods in-process on integer-valued stub datasets and the model at exact rationals "
         "on the same arrays (scipy's Gaussian weights as data), and all which_type forms x name subsets. Partial: "
-        "feat_con_idt_maxima_75perc, NaN inside a partially fitted segment, binary64 evaluation, independence of the "
+        "NaN inside a partially fitted segment, binary64 evaluation, independence of the "
         "retract segment and the unfitted states are explored by the oracle, not proved.",
         "Trusted: Lean kernel, standard axioms, hand model (sampled exact correspondence), gaussian_filter1d "
         "homogeneous, np.std positively homogeneous, lstsq = least squares, log wrappers outside the model.",
